@@ -318,7 +318,7 @@ def run(prop, tier, seed):
     t0 = time.time()
     devs = findings.open_devs("MSClient")
     bydev = findings.by_dev()
-    corpus = C.all_replies(full=(tier == "thorough"))
+    corpus = C.all_replies(full=(tier == "thorough"), seed=seed)
     outs, res = tlc_client(corpus, devs, every=(3 if tier == "quick" else 1))
     machinery = []
     if res["error"] or res["violated"]:
